@@ -78,7 +78,7 @@ let () = run_lines (fun f ->
         match ops with
         | [] -> Stdlib.List.rev acc
         | o :: rest ->
-          let (r', x) = Reader.step RdataLite.rd_lite r (op_of o) in
+          let (r', x) = Reader.step RdataFull.rd_full r (op_of o) in
           (match x with
            | Res.Panic -> Stdlib.List.rev ("panic" :: acc)
            | x' ->
